@@ -79,6 +79,9 @@ func init() {
 				if rootPath == §S { rootPath = §S }
 				if err := fs.Walk(rootPath, func(name string, isDir bool) error {
 					basename := filepath.Base(name)
+					if !isDir {
+						if config.IsABuildFile(basename) { ch <- name }
+						return nil }
 					if basename == core.OutDir || (isDir && strings.HasPrefix(basename, §S) && name != §S) { return filepath.SkipDir
 					} else if isDir && !strings.HasPrefix(name, prefix) && !strings.HasPrefix(prefix, name) { return filepath.SkipDir
 					} else if config.IsABuildFile(basename) && !isDir { ch <- name
